@@ -460,6 +460,7 @@ func trustedBase(prop string) []string {
 		"gocoro runs one coroutine at a time and only switches at its primitives; c.Time() is constant between primitives and non-decreasing (ticks are called with non-decreasing time)",
 		"induction over the sequence of committed transactions (the step obligations are proved here, the induction principle is not mechanised)",
 		"objects reachable from different parameters / access paths of a verified function do not alias",
+		"a call replaced by its callee's contract changes nothing in the caller's heap beyond what the contract's ensures state (no assigns clauses are checked)",
 	}
 }
 
